@@ -339,10 +339,12 @@ func checkC16(c *Ctx) Meta {
 	// ---- FRAME
 	if f := c.MustFn("C16-FRAME", "fractal/connection", "(*Conn).receiveRoutine"); f != nil {
 		key := "receiveRoutine:size-bounded-before-allocation"
+		// the announced size: the header decoder, or the big-endian read itself where the decoder was folded in
+		sizeIDs := []string{pkgConn + ".bytesToMsgSize", "(encoding/binary.bigEndian).Uint32"}
 		var makes []ssa.Instruction
 		allInstrs(f, func(in ssa.Instruction) {
 			if ms, ok := in.(*ssa.MakeSlice); ok {
-				if backSlice(ms.Len).hasCallTo(pkgConn + ".bytesToMsgSize") {
+				if backSlice(ms.Len).hasCallTo(sizeIDs...) {
 					makes = append(makes, in)
 				}
 			}
@@ -352,7 +354,7 @@ func checkC16(c *Ctx) Meta {
 				return false
 			}
 			sx, sy := backSlice(bo.X), backSlice(bo.Y)
-			return (sx.hasCallTo(pkgConn+".bytesToMsgSize") && sy.hasField(pkgConn+".options", "maxRecvMsgSize")) || (sy.hasCallTo(pkgConn+".bytesToMsgSize") && sx.hasField(pkgConn+".options", "maxRecvMsgSize"))
+			return (sx.hasCallTo(sizeIDs...) && sy.hasField(pkgConn+".options", "maxRecvMsgSize")) || (sy.hasCallTo(sizeIDs...) && sx.hasField(pkgConn+".options", "maxRecvMsgSize"))
 		})
 		if len(makes) == 0 || len(tests) == 0 {
 			c.Bad("C16-FRAME", key, c.Pos(f.Pos()), "no comparison of the received size with maxRecvMsgSize guards the allocation of the frame buffer")
@@ -367,7 +369,7 @@ func checkC16(c *Ctx) Meta {
 			okPol := true
 			for _, t := range tests {
 				bo := t.If.Cond.(*ssa.BinOp)
-				sizeLeft := backSlice(bo.X).hasCallTo(pkgConn + ".bytesToMsgSize")
+				sizeLeft := backSlice(bo.X).hasCallTo(sizeIDs...)
 				greater := (bo.Op == token.GTR && sizeLeft) || (bo.Op == token.LSS && !sizeLeft) || (bo.Op == token.GEQ && sizeLeft) || (bo.Op == token.LEQ && !sizeLeft)
 				var allocSide *ssa.BasicBlock
 				if greater {
@@ -388,7 +390,7 @@ func checkC16(c *Ctx) Meta {
 			for _, t := range tests {
 				bo := t.If.Cond.(*ssa.BinOp)
 				side := bo.X
-				if !backSlice(bo.X).hasCallTo(pkgConn + ".bytesToMsgSize") {
+				if !backSlice(bo.X).hasCallTo(sizeIDs...) {
 					side = bo.Y
 				}
 				for _, m := range makes {
